@@ -1,5 +1,6 @@
-(* C08 — index contents do not depend on batching (threading / caching / memory-mapping: see DESIGN.md).
-   Statement-only file. *)
+(* C08 — index contents do not depend on batching, threading, caching or memory-mapping.
+   Statement-only file.  First part: batch size, worker threads, completion order, thread interleavings (Index/Sched.v).
+   Second part (further down): cache_gt_than, autowarm, avoid_copies, data_dir (Store/Settings.v, Store/Settings_Proofs.v). *)
 From Coq Require Import Permutation.
 From SA Require Import Base.Prelude Index.Index Index.Index_Spec Index.Index_Proofs2 Index.Index_Proofs3
   Query.Phrase Query.Phrase_Spec Index.Sched Index.Sched_Proofs.
@@ -75,3 +76,143 @@ Print Assumptions C08_threaded_builds_agree.
 (* Assumptions of the remaining named statements of this file (the gate requires one per statement). *)
 Print Assumptions C08_index_total.
 Print Assumptions C08_arrival_order_dictionary.
+
+(* ================= the other settings of SearchArray.index: cache_gt_than, autowarm, avoid_copies, data_dir =================
+   Models (all made for other properties; nothing here is new but the comparison of two configurations):
+     cache_gt_than, autowarm : View/Purity.v, the query-time state machine with docfreq_cache / termfreq_cache /
+                               FilteredPosns.sliced and the threshold (C07).  [fresh_pool ix cg autowarm] is the state
+                               SearchArray.index leaves: threshold cg, then posns.warm() iff autowarm (Store/Settings.v).
+                               An operation history [ops] is any list of queries (term / phrase frequencies with any position
+                               range, positions, docfreq, lengths, BM25 scores), selections arr[key], copies and warm() calls;
+                               operations name arrays by their position in the pool (0 = the indexed array, k = the k-th
+                               array made by a selection or copy; warm() makes none, so positions mean the same on both sides).
+     avoid_copies            : View/View.v, [of_index ix avoid] and [select] (FilteredPosns wrapper vs physical slice) (C06).
+     data_dir                : Store/Store_View.v, [store_index] / [pickle_arr] / [unpickle_arr] (C18).  In the indexing process
+                               MemoryMappedArrays writes the file and keeps serving reads from the ArrayDict it was given
+                               (memmap_arrays.py 146-161, 167-195), so the index record is untouched; the file is read by a
+                               process that LOADS the array.
+   Hypothesis docs <> []: on an empty corpus a selection with a non-empty key is outside the machine's domain (C07). *)
+From Coq Require Import ZArith.
+From SA Require Import View.View View.View_Proofs View.Purity Store.Store Store.Store_View Store.Settings Store.Settings_Proofs.
+
+(* the machine with ANY threshold, warmed or not, returns what a reference evaluator WITHOUT heap, caches and threshold
+   returns ([hf_run]: it carries only the immutable descriptors of the arrays and applies the pure functions of View/View.v) *)
+Theorem C08_answers_are_cache_free : forall docs bs ix cg autowarm ops,
+  wf_docs docs -> docs <> [] -> index false bs docs = AOk ix ->
+  fst (run (fresh_pool ix cg autowarm) ops) = hf_run [of_index ix true] ops.
+Proof. exact fresh_pool_is_cache_free. Qed.
+Print Assumptions C08_answers_are_cache_free.
+
+(* hence: ANY two thresholds, autowarm or not on either side: every operation history is answered alike, output by output *)
+Theorem C08_cache_threshold_and_warming_irrelevant : forall docs bs ix cg1 cg2 autowarm1 autowarm2 ops,
+  wf_docs docs -> docs <> [] -> index false bs docs = AOk ix ->
+  fst (run (fresh_pool ix cg1 autowarm1) ops) = fst (run (fresh_pool ix cg2 autowarm2) ops).
+Proof. exact cache_threshold_and_warming_irrelevant. Qed.
+Print Assumptions C08_cache_threshold_and_warming_irrelevant.
+
+(* the same with warm() written as the first operation of the history ([autowarm_ops w] = [OWarm 0] or []; skipn drops
+   its output) *)
+Theorem C08_cache_threshold_and_warming_irrelevant_ops : forall docs bs ix cg1 cg2 w1 w2 ops,
+  wf_docs docs -> docs <> [] -> index false bs docs = AOk ix ->
+  skipn (length (autowarm_ops w1)) (fst (run (init_pool ix cg1) (autowarm_ops w1 ++ ops))) =
+  skipn (length (autowarm_ops w2)) (fst (run (init_pool ix cg2) (autowarm_ops w2 ++ ops))).
+Proof. exact cache_threshold_and_warming_irrelevant_ops. Qed.
+Print Assumptions C08_cache_threshold_and_warming_irrelevant_ops.
+
+(* copy avoidance: any chain of selections (keys in any order, repeats allowed), the two flags: neither fails, and the two
+   views agree on term frequencies (any position range), document frequencies, positions, phrase frequencies (any phrase,
+   any range), the statistics handed to a similarity, BM25 scores, lengths, corpus statistics, row vector, dictionary *)
+Theorem C08_avoid_copies_irrelevant : forall docs bs ix keys,
+  wf_docs docs -> index false bs docs = AOk ix -> valid_keys (length docs) keys ->
+  exists vt vf, select_chain (of_index ix true) keys = AOk vt /\ select_chain (of_index ix false) keys = AOk vf /\
+    (forall t lo hi, v_termfreqs vf t lo hi = v_termfreqs vt t lo hi) /\
+    (forall t, v_docfreq vf t = v_docfreq vt t) /\
+    (forall t, v_positions vf t = v_positions vt t) /\
+    (forall ph lo hi, v_phrase_freqs vf ph lo hi = v_phrase_freqs vt ph lo hi) /\
+    (forall ts lo hi, v_score_args vf ts lo hi = v_score_args vt ts lo hi) /\
+    (forall ts idf k1 b, v_score_bm25 vf ts idf k1 b = v_score_bm25 vt ts idf k1 b) /\
+    v_doclengths vf = v_doclengths vt /\ a_total vf = a_total vt /\ a_n vf = a_n vt /\
+    a_rows vf = a_rows vt /\ a_subset vf = a_subset vt /\ a_terms vf = a_terms vt.
+Proof. exact avoid_copies_irrelevant. Qed.
+Print Assumptions C08_avoid_copies_irrelevant.
+
+(* data directory.  d0: the directory before indexing, in ANY state with the naming invariant; d: ANY later state of it
+   (further indexes, unrelated files); v: the array (keys = []) or any view of it, either avoid_copies mode.
+   (a) what the file and the pickled metadata give back is exactly the in-memory postings table;
+   (b) the array loaded from the directory is literally the array;  (c) without a directory nothing is written, and
+   (d) the array loads, to the same value, in any directory state d' *)
+Theorem C08_data_dir_irrelevant : forall docs bs ix avoid keys v d0 d1 res d d',
+  wf_docs docs -> index false bs docs = AOk ix -> select_chain (of_index ix avoid) keys = AOk v ->
+  names_below_count d0 -> store_index d0 true ix = (d1, res) -> dir_later d1 d ->
+  (forall m, res = OnDisk m -> mm_load d m = Some (ix_posts ix)) /\
+  unpickle_arr d (pickle_arr res (shares_root avoid keys) v) = Some v /\
+  store_index d0 false ix = (d0, InMemory) /\
+  unpickle_arr d' (pickle_arr InMemory (shares_root avoid keys) v) = Some v.
+Proof. exact data_dir_irrelevant. Qed.
+Print Assumptions C08_data_dir_irrelevant.
+
+(* ALL SETTINGS AT ONCE: two configurations (batch_size, cache_gt_than, autowarm, avoid_copies, data_dir) on one corpus.
+   (i)  every operation history on the query-time machine returns the same outputs;
+   (ii) every chain of selections: neither fails; the view of the second configuration, whose index went to a directory
+        (or not: use_dir) and which is loaded back in any later state of it, is that view; the two views answer alike. *)
+Theorem C08_settings_irrelevant : forall docs bs1 bs2 ix1 ix2 cg1 cg2 autowarm1 autowarm2 avoid1 avoid2 ops keys d0 use_dir d1 res d,
+  wf_docs docs -> docs <> [] -> index false bs1 docs = AOk ix1 -> index false bs2 docs = AOk ix2 ->
+  valid_keys (length docs) keys -> names_below_count d0 -> store_index d0 use_dir ix2 = (d1, res) -> dir_later d1 d ->
+  fst (run (fresh_pool ix1 cg1 autowarm1) ops) = fst (run (fresh_pool ix2 cg2 autowarm2) ops) /\
+  exists v1 v2, select_chain (of_index ix1 avoid1) keys = AOk v1 /\ select_chain (of_index ix2 avoid2) keys = AOk v2 /\
+                unpickle_arr d (pickle_arr res (shares_root avoid2 keys) v2) = Some v2 /\
+                same_view_answers v1 v2.
+Proof. exact settings_irrelevant. Qed.
+Print Assumptions C08_settings_irrelevant.
+
+(* 5 documents.  Left: batches of 2, threshold 0 (every docfreq is cached), autowarm.  Right: one batch, threshold 25,
+   no warm.  A history with a view, a view of the view, a copy, ranged tf, phrases (one with a repeated term), a score;
+   then the same views cut with avoid_copies = False, and the index written to a directory and loaded back. *)
+Example C08_settings_agree :
+  let docs := [[1;2;1;3];[];[2];[1;1;2];[3;1]] in
+  let ops := [OTf 0 1 None None; ODf 0 1; OSelect 0 [4;2;0;0;3]; OPhrase 1 [1;2] None None; OTf 1 1 (Some 0) (Some 17);
+              OPos 1 1; OScore 1 [1;2] 1065353216 1067030938 1061158912; OSelect 1 [4;0]; OPhrase 2 [1;1;2] None None;
+              ODf 2 2; OLens 2; OTf 0 1 None None; OWarm 0; OCopy 2; OTf 3 1 None None] in
+  match index false 2 docs, index false 100 docs with
+  | AOk ix1, AOk ix2 =>
+      let '(outs1, p1) := run (fresh_pool ix1 0 true) ops in
+      let '(outs2, p2) := run (fresh_pool ix2 25 false) ops in
+      outs1 = outs2 /\
+      nth 3 outs1 (RUnit (AOk tt)) = RVec (AOk [0;0;1;1;1]) /\ nth 8 outs1 (RUnit (AOk tt)) = RVec (AOk [1;0]) /\
+      ps_dfcache (get_ps p1 0) <> [] /\ ps_dfcache (get_ps p2 0) = [] /\           (* the caches do differ *)
+      match select_chain (of_index ix1 true) [[4;2;0;0;3];[4;0]], select_chain (of_index ix2 false) [[4;2;0;0;3];[4;0]] with
+      | AOk vt, AOk vf =>
+          RVec (v_phrase_freqs vf [1;1;2] None None) = nth 8 outs1 (RUnit (AOk tt)) /\
+          v_phrase_freqs vt [1;1;2] None None = v_phrase_freqs vf [1;1;2] None None /\
+          v_termfreqs vt 1 (Some 0) (Some 17) = v_termfreqs vf 1 (Some 0) (Some 17) /\
+          v_positions vt 1 = v_positions vf 1 /\ v_docfreq vt 2 = v_docfreq vf 2 /\
+          v_score_bm25 vt [1;2] 1065353216 1067030938 1061158912 = v_score_bm25 vf [1;2] 1065353216 1067030938 1061158912 /\
+          let '(d1, res) := store_index [(None, [42]); (Some 0, [1;2;3])] true ix2 in
+          (match res with OnDisk m => mm_load (d1 ++ [(None, [5])]) m = Some (ix_posts ix2) | InMemory => False end) /\
+          unpickle_arr (d1 ++ [(None, [5])]) (pickle_arr res false vf) = Some vf
+      | _, _ => False end
+  | _, _ => False end.
+Proof. vm_compute. repeat split; discriminate. Qed.
+
+(* autowarm that DOES fill the caches (300 documents: both terms have more than 255 posting words), against a build with
+   another batch size, a threshold nothing exceeds, and no warm *)
+Example C08_autowarm_fills_caches_same_answers :
+  let docs := repeat [1;2] 299 ++ [[2;1;1]] in
+  let ops := [OTf 0 1 None None; ODf 0 1; OSelect 0 [299;0;7]; OPhrase 1 [1;2] None None; OTf 1 1 None None; OTf 0 1 None None] in
+  match index false 64 docs, index false 1000 docs with
+  | AOk ix1, AOk ix2 =>
+      map fst (ps_dfcache (get_ps (fresh_pool ix1 25 true) 0)) = [2;1] /\ map fst (ps_tfcache (get_ps (fresh_pool ix1 25 true) 0)) = [2;1] /\
+      ps_dfcache (get_ps (fresh_pool ix2 1000 false) 0) = [] /\ ps_tfcache (get_ps (fresh_pool ix2 1000 false) 0) = [] /\
+      fst (run (fresh_pool ix1 25 true) ops) = fst (run (fresh_pool ix2 1000 false) ops) /\
+      nth 3 (fst (run (fresh_pool ix1 25 true) ops)) (RUnit (AOk tt)) = RVec (AOk [0;1;1])
+  | _, _ => False end.
+Proof. vm_compute. repeat split. Qed.
+(* Not modelled / not covered by the second part:
+   - the query-time machine (caches, threshold, warm) covers avoid_copies = True pools only (init_pool: of_index ix true,
+     m_select: posns.filter); with avoid_copies = False a selection builds a NEW PosnBitArray over a sliced dict with fresh
+     caches (middle_out.py slice 404-413) and copy() deep-copies the postings (postings.py 539-541): those objects are
+     compared at the level of the pure answers (C08_avoid_copies_irrelevant), not on a machine with caches;
+   - warm() on a view, slop phrase search, custom similarities and edismax are not operations of the machine (edismax as a
+     dynamic program over it: C07 / C20);
+   - MemoryMappedArrays.__setitem__ / __delitem__ (mutation after indexing), np.memmap itself, file deletion or
+     modification in the data directory (the directory only grows: dir_later), pickle bytes: exercised by the check. *)
